@@ -63,6 +63,12 @@ func c20r1(r *R) {
 		if p.holds("($2 > 0)") {
 			wantRx = "ratelimit.newRateLimiter($2)"
 		}
+		if tx == "" {
+			tx = "nil" // the field is never assigned on this path: the zero value
+		}
+		if rx == "" {
+			rx = "nil"
+		}
 		if tx != wantTx || rx != wantRx {
 			why = append(why, fmt.Sprintf("readLimit>0=%v writeLimit>0=%v: tx=%s rx=%s, expected tx=%s rx=%s", p.holds("($1 > 0)"), p.holds("($2 > 0)"), tx, rx, wantTx, wantRx))
 		}
@@ -130,11 +136,11 @@ func c20r2(r *R) {
 		if p.holds("(($0 / 64) < 4194304)") {
 			want = "4194304"
 		}
-		if p.Ret[0] != "golang.org/x/time/rate.NewLimiter($0, "+want+")" {
+		if p.Ret[0] != "golang.org/x/time/rate.NewLimiter($0, "+want+")" && p.Ret[0] != "golang.org/x/time/rate.NewLimiter($0, builtin max(($0 / 64), 4194304))" && p.Ret[0] != "golang.org/x/time/rate.NewLimiter($0, builtin max(4194304, ($0 / 64)))" {
 			why = append(why, "limiter is "+p.Ret[0])
 		}
 	}
-	r.check(len(ps) == 2 && len(why) == 0, "ratelimit.newRateLimiter", nr.Pos(), "rate = bandwidth bytes/s, burst = max(4 MiB, bandwidth/64)", strings.Join(why, "; "))
+	r.check((len(ps) == 2 || len(ps) == 1) && len(why) == 0, "ratelimit.newRateLimiter", nr.Pos(), "rate = bandwidth bytes/s, burst = max(4 MiB, bandwidth/64)", strings.Join(why, "; "))
 }
 
 func c20r3(r *R) {
@@ -183,27 +189,31 @@ func c20r3(r *R) {
 			}
 		})
 	}
-	// the wait context is never cancelled
+	// the wait context is never cancelled: a package-level context (whatever it is called) that is assigned
+	// context.Background() exactly once, or context.Background() itself
 	for _, m := range []string{"Read", "Write"} {
 		fn := r.method("ratelimit", "Conn", m)
 		for _, c := range calls(fn, nameIs("(*golang.org/x/time/rate.Limiter).WaitN")) {
-			ctx := describe(c.Common().Args[1])
-			okCtx := ctx == "ratelimit.waitContext" || ctx == "context.Background()"
+			av := c.Common().Args[1]
+			ctx := describe(av)
+			okCtx := ctx == "context.Background()"
+			if u, ok := av.(*ssa.UnOp); ok {
+				if g, ok := u.X.(*ssa.Global); ok {
+					val, n := "", 0
+					for _, f := range r.modFuncsAll() {
+						eachInstr(f, func(ins ssa.Instruction) {
+							if st, ok := ins.(*ssa.Store); ok && st.Addr == ssa.Value(g) {
+								n++
+								val = describe(st.Val)
+							}
+						})
+					}
+					okCtx = n == 1 && val == "context.Background()"
+					ctx += fmt.Sprintf(" (= %s, %d assignments)", val, n)
+				}
+			}
 			r.check(okCtx, "ratelimit.Conn."+m+"#wait-context", c.Pos(), "waits on a background context", "WaitN is given "+ctx+": once that context is cancelled every wait returns immediately (its error is ignored) and the limit stops applying")
 		}
-	}
-	if g, ok := r.pkg("ratelimit").Members["waitContext"].(*ssa.Global); ok {
-		val := ""
-		n := 0
-		for _, fn := range r.modFuncs() {
-			eachInstr(fn, func(ins ssa.Instruction) {
-				if st, ok := ins.(*ssa.Store); ok && st.Addr == g {
-					n++
-					val = describe(st.Val)
-				}
-			})
-		}
-		r.check(n == 1 && val == "context.Background()", "ratelimit.waitContext", g.Pos(), "= context.Background(), assigned once", "waitContext is "+val+fmt.Sprintf(" (%d assignments)", n))
 	}
 }
 
